@@ -8,6 +8,7 @@ import (
 	"bufio"
 	"encoding/json"
 	"fmt"
+	"net"
 	"os"
 	"strconv"
 	"syscall"
@@ -20,6 +21,11 @@ func TestWorker(t *testing.T) {
 	if os.Getenv("VERIF_WORKER") == "" {
 		t.Skip("not started by the driver")
 	}
+	// The net package creates its resolver-configuration semaphore (a channel)
+	// on first use; created inside one synctest bubble it would be unusable from
+	// the next job's bubble ("send on synctest channel from outside bubble").
+	// Touch it here, outside every bubble.
+	net.LookupHost("localhost")
 	if v := os.Getenv("VERIF_SETUID"); v != "" {
 		// unprivileged worker group (C11): drop root for the whole process
 		id, _ := strconv.Atoi(v)
